@@ -145,8 +145,13 @@ func (e *Engine) GraphOf(fn *ssa.Function, ctx *Ctx) *Graph {
 	if g, ok := e.graphs[k]; ok {
 		return g
 	}
-	// provisional unpruned graph to break evaluation cycles
-	e.graphs[k] = newGraph(fn, nil, e.NoReturn)
+	if e.graphBusy[k] {
+		// pruning this very graph needs a value that depends on it: answer
+		// with the unpruned graph and mark everything derived as provisional
+		e.deferCount++
+		return newGraph(fn, nil, e.NoReturn)
+	}
+	e.graphBusy[k] = true
 	keep := func(b *ssa.BasicBlock, i int) bool {
 		iff, ok := b.Instrs[len(b.Instrs)-1].(*ssa.If)
 		if !ok {
@@ -159,15 +164,8 @@ func (e *Engine) GraphOf(fn *ssa.Function, ctx *Ctx) *Graph {
 		return v == (i == 0)
 	}
 	g := newGraph(fn, keep, e.NoReturn)
+	delete(e.graphBusy, k)
 	e.graphs[k] = g
-	// values memoised against the provisional graph may be stale
-	for mk := range e.memo {
-		if mk.ctx == ctx {
-			if _, isPhi := mk.v.(*ssa.Phi); isPhi {
-				delete(e.memo, mk)
-			}
-		}
-	}
 	return g
 }
 
